@@ -16,81 +16,80 @@
 EXTENDS Quant
 
 CONSTANTS MCItems, MCItems3, MCWords
-VARIABLES id, ph
-vars == <<id, ph>>
+VARIABLES id, ph, res
+vars == <<id, ph, res>>
 
-Insts(a) == {i \in {<<a, b, c, wn>> : b \in MCItems \cup {0}, c \in MCItems3 \cup {0}, wn \in MCWords} :
-               ValidId(i) /\ InDomain(PatsOf(i))}
+Answers(i) == LET p == PatsOf(i)  w == WordOf(i[4]) IN
+              [s |-> FirstMatch(p, w), f |-> FirstFull(p, w), e |-> FirstElemStep(p, w), k |-> FirstWalk(p, w),
+               flip |-> FirstMatch([k \in 1..Len(p) |-> IF p[k].k = "q" THEN [p[k] EXCEPT !.g = ~@] ELSE p[k]], w).acc]
 
-Init == ph = "start" /\ id \in {<<a, 0, 0, 0>> : a \in MCItems \cup {0}}
-
-PickFlat   == ph = "start" /\ ph' = "flat" /\ id' \in {i \in Insts(id[1]) : IsFlat(PatsOf(i))}
-PickSubseq == ph = "start" /\ ph' = "sub"  /\ id' \in {i \in Insts(id[1]) : ~IsFlat(PatsOf(i))}
-Next == PickFlat \/ PickSubseq
+(* three levels so that TLC's workers share the enumeration: first item, second item, then (third item, word) *)
+Init == ph = "start" /\ id \in {<<a, 0, 0, 0>> : a \in MCItems \cup {0}} /\ res = 0
+Second == ph = "start" /\ ph' = "two" /\ id' \in {<<id[1], b, 0, 0>> : b \in MCItems \cup {0}} /\ res' = 0
+Insts == {i \in {<<id[1], id[2], c, wn>> : c \in MCItems3 \cup {0}, wn \in MCWords} : ValidId(i) /\ InDomain(PatsOf(i))}
+PickFlat   == ph = "two" /\ ph' = "flat" /\ id' \in {i \in Insts : IsFlat(PatsOf(i))} /\ res' = Answers(id')
+PickSubseq == ph = "two" /\ ph' = "sub"  /\ id' \in {i \in Insts : ~IsFlat(PatsOf(i))} /\ res' = Answers(id')
+Next == Second \/ PickFlat \/ PickSubseq
 Spec == Init /\ [][Next]_vars
-
-P == PatsOf(id)
-W == WordOf(id[4])
-R == FirstMatch(P, W)
 
 -----------------------------------------------------------------------------
 (* Declarative semantics of flat lists: a vector of iteration counts *)
-N == Len(P)
-Vectors == [1..N -> 0..Len(W)]
 Off(v, i) == LET RECURSIVE S(_) S(k) == IF k = 0 THEN 0 ELSE S(k - 1) + v[k] IN S(i - 1)
-Kind(i) == IF P[i].k = "q" THEN P[i].body[1].k ELSE P[i].k
-LitX(i) == IF P[i].k = "q" THEN P[i].body[1].x ELSE P[i].x
+Kind(P, i) == IF P[i].k = "q" THEN P[i].body[1].k ELSE P[i].k
+LitX(P, i) == IF P[i].k = "q" THEN P[i].body[1].x ELSE P[i].x
 (* binding of u before item i: the last element covered by the capture site, if it lies before i and matched at least once *)
-UBefore(v, i) == LET cs == {j \in 1..(i - 1) : Kind(j) = "cap" /\ v[j] > 0}
-                 IN IF cs = {} THEN 0 ELSE LET j == CHOOSE j \in cs : \A k \in cs : k <= j IN Off(v, j) + v[j]
-ValidVec(v) ==
+UBefore(P, v, i) == LET cs == {j \in 1..(i - 1) : Kind(P, j) = "cap" /\ v[j] > 0}
+                    IN IF cs = {} THEN 0 ELSE LET j == CHOOSE j \in cs : \A k \in cs : k <= j IN Off(v, j) + v[j]
+ValidVec(P, W, v) ==
+  LET N == Len(P) IN
   /\ \A i \in 1..N : IF P[i].k = "q" THEN v[i] >= P[i].mn /\ v[i] <= P[i].mx ELSE v[i] = 1
   /\ Off(v, N + 1) = Len(W)
   /\ \A i \in 1..N : \A p \in (Off(v, i) + 1)..(Off(v, i) + v[i]) :
-       CASE Kind(i) = "lit"  -> W[p] = LitX(i)
-         [] Kind(i) = "back" -> UBefore(v, i) > 0 /\ W[p] = W[UBefore(v, i)]
+       CASE Kind(P, i) = "lit"  -> W[p] = LitX(P, i)
+         [] Kind(P, i) = "back" -> UBefore(P, v, i) > 0 /\ W[p] = W[UBefore(P, v, i)]
          [] OTHER -> TRUE
 (* v is preferred to v2: at the first item where they differ, greedy has more, non-greedy fewer *)
-Preferred(v, v2) == \/ v = v2
-                    \/ LET d == CHOOSE i \in 1..N : v[i] # v2[i] /\ \A j \in 1..(i - 1) : v[j] = v2[j]
-                       IN IF P[d].g THEN v[d] > v2[d] ELSE v[d] < v2[d]
-Valids == {v \in Vectors : ValidVec(v)}
-Best == CHOOSE v \in Valids : \A v2 \in Valids : Preferred(v, v2)
+Preferred(P, v, v2) == \/ v = v2
+                       \/ LET d == CHOOSE i \in 1..Len(P) : v[i] # v2[i] /\ \A j \in 1..(i - 1) : v[j] = v2[j]
+                          IN IF P[d].g THEN v[d] > v2[d] ELSE v[d] < v2[d]
 UnitIters(v, i) == [k \in 1..v[i] |-> <<Off(v, i) + k - 1, Off(v, i) + k>>]
 
 LexFirst == (ph = "flat") =>
-  IF Valids = {} THEN ~R.acc
-  ELSE /\ R.acc
-       /\ R.u = UBefore(Best, N + 1)
-       /\ \A i \in 1..N : P[i].k = "q" => /\ Spans(Iters(R, 10 * i)) = UnitIters(Best, i)
-                                          /\ LastWhole(R, 10 * i) = <<Off(Best, i), Off(Best, i) + Best[i]>>
+  LET P == PatsOf(id)  W == WordOf(id[4])  N == Len(P)  R == res.s
+      valids == {v \in [1..N -> 0..Len(W)] : ValidVec(P, W, v)}
+  IN IF valids = {} THEN ~R.acc
+     ELSE LET best == CHOOSE v \in valids : \A v2 \in valids : Preferred(P, v, v2) IN
+          /\ R.acc
+          /\ R.u = UBefore(P, best, N + 1)
+          /\ \A i \in 1..N : P[i].k = "q" => /\ Spans(Iters(R, 10 * i)) = UnitIters(best, i)
+                                             /\ LastWhole(R, 10 * i) = <<Off(best, i), Off(best, i) + best[i]>>
 
-GreedyLang == (ph = "flat") =>
-  LET flip == [i \in 1..N |-> IF P[i].k = "q" THEN [P[i] EXCEPT !.g = ~@] ELSE P[i]]
-  IN R.acc = FirstMatch(flip, W).acc
+GreedyLang == (ph = "flat") => res.s.acc = res.flip
 
 -----------------------------------------------------------------------------
 (* an accepted answer tiles the word: top-level spans are adjacent, iterations tile the quantifier, counts in bounds *)
-TopSpan(i, pos) == IF P[i].k = "q" THEN LastWhole(R, 10 * i) ELSE <<pos, pos + 1>>
-RECURSIVE TilesFrom(_, _)
-TilesFrom(i, pos) == IF i > N THEN pos = Len(W)
-                     ELSE TopSpan(i, pos)[1] = pos /\ TopSpan(i, pos)[2] >= pos /\ TilesFrom(i + 1, TopSpan(i, pos)[2])
-IterTiles(i) == LET its == Spans(Iters(R, 10 * i))  sp == LastWhole(R, 10 * i) IN
-                /\ Len(its) >= P[i].mn /\ Len(its) <= P[i].mx
-                /\ Len(Wholes(R, 10 * i)) = 1
-                /\ IF its = <<>> THEN sp[1] = sp[2]
-                   ELSE /\ its[1][1] = sp[1] /\ its[Len(its)][2] = sp[2]
-                        /\ \A k \in 1..(Len(its) - 1) : its[k][2] = its[k + 1][1]
-                        /\ \A k \in 1..Len(its) : its[k][2] > its[k][1] /\ (P[i].one => its[k][2] = its[k][1] + 1)
-Tiles == (ph # "start" /\ R.acc) => TilesFrom(1, 0) /\ \A i \in 1..N : P[i].k = "q" => IterTiles(i)
+Tiles == (ph \in {"flat", "sub"} /\ res.s.acc) =>
+  LET P == PatsOf(id)  W == WordOf(id[4])  N == Len(P)  R == res.s
+      TopSpan(i, pos) == IF P[i].k = "q" THEN LastWhole(R, 10 * i) ELSE <<pos, pos + 1>>
+      RECURSIVE TilesFrom(_, _)
+      TilesFrom(i, pos) == IF i > N THEN pos = Len(W)
+                           ELSE LET sp == TopSpan(i, pos) IN sp[1] = pos /\ sp[2] >= pos /\ TilesFrom(i + 1, sp[2])
+      IterTiles(i) == LET its == Spans(Iters(R, 10 * i))  sp == LastWhole(R, 10 * i) IN
+                      /\ Len(its) >= P[i].mn /\ Len(its) <= P[i].mx
+                      /\ Len(Wholes(R, 10 * i)) = 1
+                      /\ IF its = <<>> THEN sp[1] = sp[2]
+                         ELSE /\ its[1][1] = sp[1] /\ its[Len(its)][2] = sp[2]
+                              /\ \A k \in 1..(Len(its) - 1) : its[k][2] = its[k + 1][1]
+                              /\ \A k \in 1..Len(its) : its[k][2] > its[k][1] /\ (P[i].one => its[k][2] = its[k][1] + 1)
+  IN TilesFrom(1, 0) /\ \A i \in 1..N : P[i].k = "q" => IterTiles(i)
 
-HasInnerQ == \E i \in 1..N : P[i].k = "q" /\ ~P[i].one /\ \E j \in 1..Len(P[i].body) : P[i].body[j].k = "q"
-AtomicSound == (ph = "sub") => LET F == FirstFull(P, W) IN
-                 /\ R.acc => F.acc
-                 /\ ~HasInnerQ => R = F
-ElemOnlySub == (ph # "start" /\ ~HasGreedySub(P)) => FirstElemStep(P, W) = R
-
-RegexShape == (ph # "start") => \A q \in QIds(P) : TRUE   \* placeholder kept total; group names are checked by re.compile in the harness
+HasInnerQ(P) == \E i \in 1..Len(P) : P[i].k = "q" /\ ~P[i].one /\ \E j \in 1..Len(P[i].body) : P[i].body[j].k = "q"
+AtomicSound == (ph = "sub") => /\ res.s.acc => res.f.acc
+                               /\ ~HasInnerQ(PatsOf(id)) => res.s = res.f
+AtomicNoopFlat == (ph = "flat") => res.s = res.f
+ElemOnlySub == (ph \in {"flat", "sub"} /\ ~HasGreedySub(PatsOf(id))) => res.e = res.s
+(* KnownGiveBack with both classifiers off is the specification (the deterministic walk equals the backtracking order) *)
+WalkIsSpec == (ph \in {"flat", "sub"}) => res.k = res.s
 
 -----------------------------------------------------------------------------
 (* Known answers: the examples of the documentation (d11_match.py, "MQ() quantifier pattern") *)
